@@ -12,6 +12,10 @@ interleaved histories (`copy_independent`, `interleave_projection`, `interleave_
 interleaved histories.  The observers are model functions of their own (`observers_refine…`), the size type is the
 chain extracted from the header (`size_fits`, `size_type_minimal_partial`), `remove_if`'s element move assignment is
 modelled (`eraseIf_refines` for every element kind), and what a moved-from object holds is stated by `moved_from_…`.
+Arguments that refer to an element of the vector itself (`v.insert(pos, v[i])` …) are operations of the model language,
+read through the reference when the code reads them (`insert_alias_eq`, `insertFill_alias_eq`, `push_alias_eq`,
+`resize_alias_eq`, `ipv_push_alias_eq`, `alias_spec`); the relational operators are modelled through the element's `<` alone /
+`==` alone and proved against `operator==` + `operator<=>` for any asymmetric `lt` and any `eq` (`relOps_refines`).
 inplace_vector: only
 the members etl::inplace_vector has (`supports .ipv`); the rest of std::inplace_vector's interface is the known
 finding F-C01-inplace-vector-missing-members (`ipv_step_partial`, `ipv_missing_counterexample`).
